@@ -79,6 +79,181 @@ def c_rules(chk):
         chk.violation(R, inst, F.where(), '%d lookups, %d releases' % (len(dyn), len(fre)), key='%s count' % R)
 
 
+def comparison_operands(chk):
+    """"the leaf's name and key equal the anchor's": every comparison in the two anchor helpers sets a field of the certificate being
+    validated (ctx) against the *same* field of the anchor (ta); lengths belong to the pointers they bound; the DN hash handed to a
+    helper is the hash of that anchor's DN.  Operands are traced through the IR to (parameter, constant offset)."""
+    R = 'x509-anchor-comparison-operands'
+    u = build.load_unit(S)
+    L = irf.Layouts(u)
+    U = irf.Units({'u': u})
+    o_pk_ctx = L.field('br_x509_minimal_context', 'pkey')[0]
+    o_pk_ta = L.field('br_x509_trust_anchor', 'pkey')[0]
+    pk_fields = L.flat_fields('br_x509_pkey')
+    dn = {'check_single_direct_trust': 'current_dn_hash', 'check_single_trust_anchor_CA': 'saved_dn_hash'}
+    n = 0
+
+    def trace(F, o, depth=0):
+        """-> ('load'|'addr', param index, offset) or None"""
+        o = F.strip_casts(o)
+        if o['k'] == 'a':
+            return ('addr', o['v'], 0)
+        if o['k'] != 'i' or depth > 6:
+            return None
+        i = F.insts[o['v']]
+        if i['op'] in ('zext', 'sext', 'trunc'):
+            return trace(F, i['ops'][0], depth + 1)
+        if i['op'] == 'and' and any(x['k'] == 'c' for x in i['ops']):
+            return trace(F, next(x for x in i['ops'] if x['k'] != 'c'), depth + 1)
+        if i['op'] == 'load':
+            b, off = F.addr_of(i['ops'][0])
+            if b['k'] == 'a' and off is not None:
+                return ('load', b['v'], off)
+            return None
+        if i['op'] == 'getelementptr':
+            b, off = F.addr_of(o)
+            if b['k'] == 'a' and off is not None:
+                return ('addr', b['v'], off)
+        return None
+
+    def pkname(rel, size=None):
+        return sorted(nm for o, sz, nm, m in pk_fields if o == rel and nm.startswith('key.') or (o == rel and not nm.startswith('key.')))
+
+    def rel(t):
+        """offset of a traced operand relative to the pkey member of its object; None if it is not inside pkey"""
+        if t is None or t[0] != 'load':
+            return None
+        if t[1] == 0:
+            return t[2] - o_pk_ctx
+        if t[1] == 2:
+            return t[2] - o_pk_ta
+        return None
+
+    def bad(F, fn, i, what, det):
+        chk.violation(R, '%s: %s' % (fn, what), F.where(i), det + ' -- a leaf (or issuer) that differs from the anchor in that field would be accepted', key='%s %s %s' % (R, fn, what))
+
+    for fn in ('check_single_direct_trust', 'check_single_trust_anchor_CA'):
+        F = U.func(fn)
+        if F is None:
+            raise AnalysisBroken('%s vanished' % fn)
+        # ---- eqbigint(a, alen, b, blen) / memcmp_P(a, b, len) over key material
+        for c in F.calls():
+            cal = c.get('callee')
+            if cal == 'eqbigint':
+                ta_, tal, tb, tbl = (trace(F, x) for x in c['ops'][:4])
+                ra, ral, rb, rbl = rel(ta_), rel(tal), rel(tb), rel(tbl)
+                names = pkname(ra) if ra is not None else []
+                what = 'eqbigint over pkey%+d %s' % (ra if ra is not None else -1, '/'.join(names))
+                n += 1
+                if None in (ra, ral, rb, rbl):
+                    bad(F, fn, c, what, 'an operand is not a field of ctx->pkey / ta->pkey: %s' % ((ta_, tal, tb, tbl),))
+                elif {ta_[1], tb[1]} != {0, 2} or tal[1] != ta_[1] or tbl[1] != tb[1]:
+                    bad(F, fn, c, what, 'the two sides are not (certificate, anchor): value/length operands come from parameters %s' % ([ta_[1], tal[1], tb[1], tbl[1]],))
+                elif ra != rb or ral != rbl:
+                    bad(F, fn, c, what, 'different fields are compared: offsets in br_x509_pkey %s' % ([ra, ral, rb, rbl],))
+                elif not any(a + 'len' in pkname(ral) for a in names):
+                    bad(F, fn, c, what, 'the length operand is not the length of the compared integer (%s vs %s)' % (names, pkname(ral)))
+                else:
+                    chk.ok(R, '%s: %s' % (fn, what), F.where(c), 'ctx and ta, same field, own lengths')
+            elif cal in ('memcmp', 'memcmp_P'):
+                t0_, t1, tl = (trace(F, x) for x in c['ops'][:3])
+                if t0_ is not None and t1 is not None and t0_[0] == 'load' and t1[0] == 'load':
+                    ra, rb, rl = rel(t0_), rel(t1), rel(tl)
+                    names = pkname(ra) if ra is not None else []
+                    what = '%s over pkey%+d %s' % (cal, ra if ra is not None else -1, '/'.join(names))
+                    n += 1
+                    if None in (ra, rb, rl):
+                        bad(F, fn, c, what, 'an operand is not a field of ctx->pkey / ta->pkey')
+                    elif {t0_[1], t1[1]} != {0, 2}:
+                        bad(F, fn, c, what, 'both operands come from the same object (parameters %s)' % ([t0_[1], t1[1]],))
+                    elif ra != rb:
+                        bad(F, fn, c, what, 'different fields are compared: offsets %s' % ([ra, rb],))
+                    elif not any(a + 'len' in pkname(rl) for a in names):
+                        bad(F, fn, c, what, 'the length is not the length of the compared field (%s vs %s)' % (names, pkname(rl)))
+                    else:
+                        # the length must also have been compared for equality (else a prefix would match)
+                        eqlen = any(i['op'] == 'icmp' and i['pred'] in ('eq', 'ne') and {rel(trace(F, i['ops'][0])), rel(trace(F, i['ops'][1]))} == {rl}
+                                    and {(trace(F, i['ops'][0]) or (0, -1))[1], (trace(F, i['ops'][1]) or (0, -1))[1]} == {0, 2} for i in F.insts.values())
+                        if eqlen:
+                            chk.ok(R, '%s: %s' % (fn, what), F.where(c), 'ctx and ta, same field, length compared for equality')
+                        else:
+                            bad(F, fn, c, what, 'the two lengths are never compared for equality: a prefix of the anchor key would match')
+                else:
+                    # DN hash comparison: memcmp(hashed_DN, ctx-><dn field>, dnhash_len)
+                    what = 'memcmp(hashed_DN, ctx->%s)' % dn[fn]
+                    n += 1
+                    o_dn = L.field('br_x509_minimal_context', dn[fn])[0]
+                    sides = {t0_, t1}
+                    if ('addr', 1, 0) in sides and ('addr', 0, o_dn) in sides:
+                        chk.ok(R, '%s: %s' % (fn, what), F.where(c))
+                    else:
+                        bad(F, fn, c, what, 'operands are %s; the anchor DN hash must be compared with ctx->%s (%s)' %
+                            ((t0_, t1), dn[fn], 'subject of the leaf' if 'current' in dn[fn] else 'issuer of the last certificate'))
+        # ---- scalar comparisons between a ctx field and a ta field: same field of pkey
+        for i in F.insts.values():
+            if i['op'] != 'icmp':
+                continue
+            a, b = trace(F, i['ops'][0]), trace(F, i['ops'][1])
+            if a is None or b is None or a[0] != 'load' or b[0] != 'load' or {a[1], b[1]} != {0, 2}:
+                continue
+            ra, rb = rel(a), rel(b)
+            what = 'icmp over pkey%+d %s' % (ra, '/'.join(pkname(ra)))
+            n += 1
+            if ra == rb:
+                chk.ok(R, '%s: %s' % (fn, what), F.where(i))
+            else:
+                bad(F, fn, i, what, 'fields at different offsets of br_x509_pkey are compared (%s vs %s)' % (pkname(ra), pkname(rb)))
+    # ---- the DN hash handed to a helper is the hash of that very anchor's DN
+    F = U.func('br_x509_minimal_run')
+    o_dnd = L.field('br_x509_trust_anchor', 'dn.data')[0]
+    o_dnl = L.field('br_x509_trust_anchor', 'dn.len')[0]
+    hd = F.calls('hash_dn')
+    for fn in ('check_single_direct_trust', 'check_single_trust_anchor_CA'):
+        for c in F.calls(fn):
+            n += 1
+            buf, ta = F.strip_casts(c['ops'][1]), F.strip_casts(c['ops'][2])
+            inst = 'br_x509_minimal_run: %s at line %s gets hash_dn(ta->dn) of the same anchor' % (fn, c.get('line'))
+            okk = False
+
+            def rel_to(o, root):
+                """constant offset of address o relative to the SSA value root, or None"""
+                off = 0
+                for _ in range(8):
+                    o = F.strip_casts(o)
+                    if o == root:
+                        return off
+                    if o['k'] != 'i':
+                        return None
+                    g = F.insts[o['v']]
+                    if g['op'] != 'getelementptr' or g.get('off') is None or g.get('var'):
+                        return None
+                    off += g['off']
+                    o = g['ops'][0]
+                return None
+
+            def field_of_ta(o, want):
+                o = F.strip_casts(o)
+                if o['k'] != 'i' or F.insts[o['v']]['op'] != 'load':
+                    return False
+                return rel_to(F.insts[o['v']]['ops'][0], ta) == want
+            for h in hd + [x for x in F.calls() if (x.get('callee') or '').startswith(('memcpy', 'llvm.memcpy'))]:
+                if not F.dominates(h['id'], c['id']):
+                    continue
+                if h['callee'] == 'hash_dn':
+                    out, data, ln = h['ops'][3], h['ops'][1], h['ops'][2]
+                else:       # dynamic anchors carry the DN already hashed: memcpy(hashed_DN, ta->dn.data, DNHASH_LEN)
+                    out, data, ln = h['ops'][0], h['ops'][1], None
+                if F.addr_of(out)[0] != F.addr_of(c['ops'][1])[0]:
+                    continue
+                if field_of_ta(data, o_dnd) and (ln is None or field_of_ta(ln, o_dnl)):
+                    okk = True
+            if okk:
+                chk.ok(R, inst, F.where(c))
+            else:
+                chk.violation(R, inst, F.where(c), 'no dominating hash_dn(ctx, ta->dn.data, ta->dn.len, buf) / memcpy(buf, ta->dn.data, ..) filling the buffer passed from the anchor passed', key='%s run %s %s' % (R, fn, len(chk.obls)))
+    chk.floor('anchor comparisons traced', n, 12)
+
+
 def _loaded_from(F, c, off):
     cvv = F.strip_casts(c['cv'])
     if cvv['k'] != 'i' or F.insts[cvv['v']]['op'] != 'load':
@@ -198,6 +373,7 @@ def run(tier):
                        'reference validator.',
                        trusted=['clang/opt 14', 'sa/t0.py, sa/t0ai.py'])
     c_rules(chk)
+    comparison_operands(chk)
     err_writers(chk)
     t0_rules(chk)
     chk.floor('rule instances', len(chk.obls), 35)
